@@ -234,6 +234,10 @@ impl Stats {
         }
         if let Verdict::Discard(r) = &o.verdict {
             *self.discards.entry(r.clone()).or_insert(0) += 1;
+            // a property's own wall-clock watchdog: never a violation, the run is inconclusive
+            if r.starts_with("watchdog:") {
+                self.timeouts += 1;
+            }
             return;
         }
         self.distinct.insert(o.key);
